@@ -15,3 +15,4 @@ INVARIANT Drift_RandomPair
 INVARIANT Drift_RandomClifford
 INVARIANT MarginalOK
 INVARIANT MarginalExactOK
+INVARIANT BigBirthdayOK
